@@ -570,7 +570,7 @@ def run(ctx):
         parts = [idx[i::6] for i in range(6)]
 
         def work(part):
-            rc, out = ctx.run_exe(exe, input_text="".join(hl[i] + "\n" for i in part), timeout=3000)
+            rc, out = ctx.run_exe(exe, input_text="".join(hl[i] + "\n" for i in part), timeout=1800 if ctx.tier == "thorough" else 240)
             res = out.strip("\n").split("\n") if out.strip() else []
             return part, rc, res, out
         with ThreadPoolExecutor(max_workers=6) as ex:
